@@ -154,8 +154,15 @@ def channel_values(e, path):
 
 
 def _chunk_obs(chunk, ty):
-    data = chunk[:]
-    return {"offset": chunk.offset, "data": proj.elems(data), "len": len(chunk)}
+    data = proj.elems(chunk[:])
+    # a chunk is a value: looking at it again (whole, first, last element) shows the same contents
+    again = proj.elems(chunk[:])
+    ends = [proj._scalar(chunk[0]), proj._scalar(chunk[-1])] if len(chunk) else []
+    stable = again == data and ends == ([data[0], data[-1]] if data else [])
+    out = {"offset": chunk.offset, "data": data, "len": len(chunk)}
+    if not stable:
+        out["unstable"] = {"again": again[:4], "ends": ends}
+    return out
 
 
 def replay_history_case(case):
